@@ -161,8 +161,7 @@ def run_path(I: Interp, finfo: FuncInfo, con: Contract):
         st.assume(invariant_formula(I, nm, sf))
     st.old_stack.pop()
     if st.cfg.get("check_vacuity"):
-        r = st.solver.check()
-        if r == z3.unsat:
+        if not st.consistent(5000):
             st.cfg["vacuous"] = True
             raise PathEnd()
     ret = None
@@ -289,7 +288,18 @@ def decode_object(model, st: State, heap: dict, r: int, hint: Optional[T.Ty], de
         return out
     if k in ("dict", "set") or cid in (-2, -3):
         n = model.eval(z3.Select(heap["dsz"], r), model_completion=True) if "dsz" in heap else None
-        out["$dict_size"] = n.as_long() if n is not None and z3.is_int_value(n) else None
+        n = n.as_long() if n is not None and z3.is_int_value(n) else None
+        out["$dict_size"] = n
+        hk = T.strip_opt(hint) if hint is not None else None
+        kty = hk.a[0] if hk is not None and hk.k in ("dict", "set") and hk.a else None
+        vty = hk.a[1] if hk is not None and hk.k == "dict" and len(hk.a) > 1 else None
+        if n is not None and 0 <= n <= 8 and "dkeys" in heap and "dget" in heap:
+            pairs = []
+            for i in range(n):
+                kt = z3.Select(z3.Select(heap["dkeys"], r), i)
+                vt = z3.Select(z3.Select(heap["dget"], r), kt)
+                pairs.append([decode_deep(model, st, heap, kt, kty, depth + 1, seen), decode_deep(model, st, heap, vt, vty, depth + 1, seen)])
+            out["$dict"] = pairs
         return out
     if ci is not None:
         out["$class"] = ci.name
